@@ -520,6 +520,15 @@ def main():
                        "re-entering one context OBJECT while it is active is outside the model (each `with` of the modelled programs creates a new object); objects kept and entered again LATER are covered by a monitor",
                        "length-unit conversions of positions are not in the accessor registry (only context handling)"]
     chk.prove()
+    # static tie: the units machinery is translated from the current source and proved equal to Model/C05.v (GenC05.v)
+    import fcntl
+    import translate
+    cm.ensure_makefile()
+    with open(os.path.join(cm.WORK, ".coqlock"), "w") as lock:       # the committed library of the generated file (no-op when current)
+        fcntl.flock(lock, fcntl.LOCK_EX)
+        cm._run(["timeout", "600", "make", "theories/Proofs/C05gen.vo"], cwd=cm.COQDIR, timeout=650, env=cm.coq_env())
+        fcntl.flock(lock, fcntl.LOCK_UN)
+    translate.static_tie(cm, chk, PID, cm.REPO)
     if args.replay:
         rep = json.load(open(args.replay))
         print("replay: re-running the full quick check (the recorded input is part of its deterministic stream): %s" % json.dumps(rep.get("input"))[:300])
